@@ -13,6 +13,7 @@
 #include <cmath>
 #include <cstring>
 #include <limits>
+#include <memory>
 #include <sstream>
 #include <string>
 #include <type_traits>
@@ -50,24 +51,40 @@ namespace c01
   // alphabet 0 ("exact"): position coded dyadic rationals, every value distinct; all sums/products that occur for
   //   the sizes used here are exactly representable in float and double -> the oracle is bit exact.
   // alphabet 1 ("rounding"): non-representable values of mixed magnitude -> rounding bound of the property.
+  // alphabet 2 ("all negative"): the exact alphabet with every matrix / vector entry negative (no sign cancellation, sign tests).
+  // alphabet 3 ("extreme"): the exact alphabet with the matrix scaled by 2^-E (denormal entries: E=1030 double, 130 float), x by 2^+X (X=1000 / 120) and y by 2^(X-E);
+  //   products and sums are still exact, so == holds, but a kernel that looks at the magnitude of an entry (drop "small" ones) fails.
+  static int g_extreme_exp = 1030, g_extreme_xexp = 1000;
+  template<typename DT> inline void set_extreme_exp() { g_extreme_exp = std::is_same<DT, float>::value ? 130 : 1030; g_extreme_xexp = std::is_same<DT, float>::value ? 120 : 1000; }
+  inline bool alphabet_exact(int alphabet) { return alphabet != 1; }
+  inline const char* alphabet_name(int alphabet) { static const char* n[4] = {"exact", "rounding", "all-negative", "extreme-magnitude"}; return n[alphabet]; }
   inline LD aval(int alphabet, int i, int j)
   {
     const LD sgn = ((i + j) & 1) ? LD(-1) : LD(1);
-    if(alphabet == 0) return sgn * LD(1 + j + 16 * i) / LD(8);
+    const LD base = LD(1 + j + 16 * i) / LD(8);
+    if(alphabet == 0) return sgn * base;
+    if(alphabet == 2) return -base;
+    if(alphabet == 3) return sgn * ldexpl(base, -g_extreme_exp);
     static const LD tab[5] = {LD(0.1L), LD(1) / LD(3), LD(3.14159265358979323846264338L), LD(1e-3L), LD(1e3L)};
     return sgn * tab[(i * 7 + j * 3) % 5] * (LD(1) + LD(i) / LD(7));
   }
   inline LD xval(int alphabet, int j)
   {
     const LD sgn = (j & 1) ? LD(-1) : LD(1);
-    if(alphabet == 0) return sgn * LD(j + 2) / LD(2);
+    const LD base = LD(j + 2) / LD(2);
+    if(alphabet == 0) return sgn * base;
+    if(alphabet == 2) return -base;
+    if(alphabet == 3) return sgn * ldexpl(base, g_extreme_xexp);
     static const LD tab[4] = {LD(0.3L), LD(1) / LD(7), LD(2.71828182845904523536L), LD(17.1L)};
     return sgn * tab[j % 4] * (LD(1) + LD(j) / LD(11));
   }
   inline LD yval(int alphabet, int i)
   {
     const LD sgn = (i & 1) ? LD(1) : LD(-1);
-    if(alphabet == 0) return sgn * LD(3 + 2 * i) / LD(4);
+    const LD base = LD(3 + 2 * i) / LD(4);
+    if(alphabet == 0) return sgn * base;
+    if(alphabet == 3) return sgn * ldexpl(base, g_extreme_xexp - g_extreme_exp);
+    if(alphabet == 2) return -base;
     static const LD tab[3] = {LD(0.7L), LD(1) / LD(9), LD(123.456L)};
     return sgn * tab[i % 3] * (LD(1) + LD(i) / LD(13));
   }
@@ -75,15 +92,17 @@ namespace c01
   inline LD sval(int alphabet, int i)
   {
     const LD sgn = (i % 3 == 1) ? LD(-1) : LD(1);
-    if(alphabet == 0) return sgn * LD(2 + i) / LD(2);
+    if(alphabet == 2) return -LD(2 + i) / LD(2);
+    if(alphabet != 1) return sgn * LD(2 + i) / LD(2);
     static const LD tab[3] = {LD(0.9L), LD(1) / LD(6), LD(41.3L)};
     return sgn * tab[i % 3];
   }
 
   struct Scalar { LD v; bool dyadic; const char* name; };
-  static const Scalar scalars[7] = {
+  static const int NSCAL = 9;
+  static const Scalar scalars[NSCAL] = {
     {LD(0), true, "0"}, {LD(1), true, "1"}, {LD(-1), true, "-1"}, {LD(0.5L), true, "1/2"}, {LD(2), true, "2"},
-    {LD(0.3L), false, "0.3"}, {LD(1e-20L), false, "1e-20"}};
+    {LD(0.3L), false, "0.3"}, {LD(1e-20L), false, "1e-20"}, {LD(-1e-20L), false, "-1e-20"}, {LD(1e-300L), false, "1e-300"}};
 
   /// dense matrix for a 0/1 pattern given as bit string (bit i*n+j), values coded on the *global* position (i0+i, j0+j)
   inline DenseRef dense_from_bits(int m, int n, uint64_t bits, int alphabet, int i0 = 0, int j0 = 0)
@@ -219,7 +238,8 @@ namespace c01
     bool transposed = false;
     int mode = 0;        // 0: r := A x      1: r := y + alpha A x (r, y distinct)      2: same with r aliasing y
     int alpha = 1;       // index into scalars (modes 1, 2)
-    int alphabet = 0;    // 0 exact, 1 rounding
+    int alphabet = 0;    // 0 exact, 1 rounding, 2 all negative, 3 extreme magnitude
+    int scenario = 0;    // see Scenario
     std::string name() const
     {
       std::string s = transposed ? "apply_transposed" : "apply";
@@ -230,10 +250,42 @@ namespace c01
     {
       std::string s = name();
       if(mode) s += std::string(" alpha=") + scalars[alpha].name;
-      s += alphabet ? " alphabet=rounding" : " alphabet=exact";
+      s += std::string(" alphabet=") + alphabet_name(alphabet);
+      static const char* sn[9] = {"", " scenario=history(other calls on the same matrix first)", " scenario=sub-range-views", " scenario=on-deep-clone", " scenario=on-shallow-clone",
+        " scenario=on-weak-clone", " scenario=on-moved-object", " scenario=on-index-type-round-trip", " scenario=history+shallow-clone+views"};
+      s += sn[scenario];
       return s;
     }
   };
+
+  /// scenarios (lessons 2,3,6,7): the operation as first access on a fresh object / after other calls / on derived objects / on sub-range views
+  enum Scenario { S_BASE = 0, S_HIST, S_VIEW, S_CLONE_DEEP, S_CLONE_SHALLOW, S_CLONE_WEAK, S_MOVE, S_CONVERT, S_COMBO, S_COUNT };
+  struct Variant { int alphabet, scenario; };
+  /// the (alphabet, scenario) pairs enumerated per pattern: all four alphabets on the fresh object, every scenario with the exact alphabet
+  inline std::vector<Variant> variants(bool full)
+  {
+    std::vector<Variant> v = {{0, S_BASE}, {1, S_BASE}, {2, S_BASE}, {3, S_BASE}};
+    if(full) for(int sc = S_HIST; sc < S_COUNT; ++sc) v.push_back({0, sc});
+    else { v.push_back({0, S_COMBO}); }
+    return v;
+  }
+  inline int derive_kind(int scenario) { return scenario == S_COMBO ? S_CLONE_SHALLOW : (scenario >= S_CLONE_DEEP && scenario <= S_CONVERT ? scenario : 0); }
+
+  /// derived object of a leaf container (lesson 3). The source stays alive and must be unchanged afterwards.
+  template<typename M, typename MOther>
+  M derive_matrix(const M& src, int kind)
+  {
+    switch(kind)
+    {
+    case S_CLONE_DEEP: return src.clone(CloneMode::Deep);
+    case S_CLONE_SHALLOW: return src.clone(CloneMode::Shallow);
+    case S_CLONE_WEAK: return src.clone(CloneMode::Weak);
+    case S_MOVE: { M tmp = src.clone(CloneMode::Deep); M moved(std::move(tmp)); M target; target = std::move(moved); return target; }
+    case S_CONVERT: { MOther o; o.convert(src); M back; back.convert(o); return back; }
+    default: return src.clone(CloneMode::Shallow);
+    }
+  }
+  template<typename IT> struct OtherIndex { typedef typename std::conditional<sizeof(IT) == 8, std::uint32_t, std::uint64_t>::type type; };
 
   /// all (transposed, mode, alpha) combinations
   inline std::vector<ApplyCase> apply_cases(bool with_transposed, bool with_plain = true)
@@ -242,7 +294,7 @@ namespace c01
     for(int t = 0; t < (with_transposed ? 2 : 1); ++t)
     {
       if(with_plain) { ApplyCase a; a.transposed = (t == 1); a.mode = 0; v.push_back(a); }
-      for(int mode = 1; mode <= 2; ++mode) for(int al = 0; al < 7; ++al)
+      for(int mode = 1; mode <= 2; ++mode) for(int al = 0; al < NSCAL; ++al)
       { ApplyCase a; a.transposed = (t == 1); a.mode = mode; a.alpha = al; v.push_back(a); }
     }
     return v;
@@ -255,14 +307,66 @@ namespace c01
    *  mhash(): bitwise hash of all matrix arrays
    * Returns true if no check failed.
    */
+  template<typename V> struct IsDenseVector : std::false_type {};
+  template<typename DT, typename IT> struct IsDenseVector<DenseVector<DT, IT>> : std::true_type {};
+
+  /// sub-range view of a DenseVector inside a larger vector whose other entries are guards (lessons 2, 7)
+  template<typename V>
+  struct ViewOf
+  {
+    std::unique_ptr<V> big, view; std::vector<typename DataOf<V>::type> guard;
+    static constexpr int pre = 2, post = 3;
+    bool make(int n)
+    {
+      if constexpr(IsDenseVector<V>::value)
+      {
+        if(n <= 0) return false;
+        big.reset(new V(Index(n + pre + post)));
+        std::vector<LD> m; for(int i = 0; i < n + pre + post; ++i) m.push_back(LD(7777) + LD(i) / LD(4));
+        vfill(*big, m);
+        view.reset(new V(*big, Index(n), Index(pre)));
+        return true;
+      }
+      else { (void)n; return false; }
+    }
+    /// guards untouched?
+    bool guards_ok(int n) const
+    {
+      if(!big) return true;
+      const auto f = vflat(*big);
+      for(int i = 0; i < n + pre + post; ++i) if(i < pre || i >= pre + n) { if(!(LD(f[size_t(i)]) == LD(7777) + LD(i) / LD(4))) return false; }
+      return true;
+    }
+  };
+
   template<typename VOut, typename VY, typename VIn, typename Call, typename MHash>
   bool check_apply(verif::Ctx& c, const std::string& kind, const DenseRef& D, const ApplyCase& ac,
-    VOut& r, VY& y, VIn& x, Call&& call, MHash&& mhash)
+    VOut& r0, VY& y0, VIn& x0, Call&& call, MHash&& mhash)
   {
     typedef typename DataOf<VOut>::type DT;
     const int nout = ac.transposed ? D.n : D.m, nin = ac.transposed ? D.m : D.n;
     const std::string key = kind + "." + ac.name();
+    const bool hist = (ac.scenario == S_HIST || ac.scenario == S_COMBO);
+    const bool want_view = (ac.scenario == S_VIEW || ac.scenario == S_COMBO);
     bool ok = true;
+    if(vflat(x0).size() != size_t(nin) || vflat(r0).size() != size_t(nout))
+    { c.fail(key + " vector-length", "harness/create_vector length mismatch"); return false; }
+    // ---- optional sub-range views with guard entries around them
+    ViewOf<VOut> rv; ViewOf<VY> yv; ViewOf<VIn> xv;
+    const bool view = want_view && rv.make(nout) && yv.make(nout) && xv.make(nin);
+    VOut& r = view ? *rv.view : r0; VY& y = view ? *yv.view : y0; VIn& x = view ? *xv.view : x0;
+    if(view) c.count("sub_range_view_cases");
+    // ---- optional history: other calls on the same matrix object with other operands first (lessons 2, 6)
+    if(hist)
+    {
+      VOut r2 = r0.clone(CloneMode::Deep); VY y2 = y0.clone(CloneMode::Deep); VIn x2 = x0.clone(CloneMode::Deep);
+      std::vector<LD> xf2, yf2; for(int j = 0; j < nin; ++j) xf2.push_back(xval(0, j + 3)); for(int i = 0; i < nout; ++i) yf2.push_back(yval(0, i + 5));
+      vfill(x2, xf2); vfill(y2, yf2); vfill(r2, yf2);
+      call(0, r2, x2, y2, DT(1));
+      call(1, r2, x2, y2, DT(2));
+      if constexpr(std::is_same<VOut, VY>::value) call(2, r2, x2, r2, DT(-1));
+      c.count("history_calls", 3);
+    }
     // operands
     std::vector<LD> xf, yf, gf;
     for(int j = 0; j < nin; ++j) xf.push_back(xval(ac.alphabet, j));
@@ -270,8 +374,6 @@ namespace c01
     // round the operands to DT first: the oracle works on what the kernel really sees
     for(auto& v : xf) v = LD(DT(v));
     for(auto& v : yf) v = LD(DT(v));
-    if(vflat(x).size() != size_t(nin) || vflat(r).size() != size_t(nout))
-    { c.fail(key + " vector-length", "harness/create_vector length mismatch"); return false; }
     vfill(x, xf);
     if(ac.mode == 1) { vfill(y, yf); vfill(r, gf); }
     else if(ac.mode == 2) vfill(r, yf);
@@ -281,18 +383,22 @@ namespace c01
     const uint64_t mh = mhash();
     const LD alpha = (ac.mode == 0) ? LD(1) : LD(DT(scalars[ac.alpha].v));
     // ---- the real code
-    if constexpr(std::is_same<VOut, VY>::value) call(ac.mode, r, x, (ac.mode == 2 ? r : y), DT(alpha));
-    else
-    {
-      if(ac.mode == 2) { c.fail(key + " harness", "r==y needs equal types"); return false; }
-      call(ac.mode, r, x, y, DT(alpha));
-    }
+    auto invoke = [&]() -> bool {
+      if constexpr(std::is_same<VOut, VY>::value) call(ac.mode, r, x, (ac.mode == 2 ? r : y), DT(alpha));
+      else
+      {
+        if(ac.mode == 2) { c.fail(key + " harness", "r==y needs equal types"); return false; }
+        call(ac.mode, r, x, y, DT(alpha));
+      }
+      return true; };
+    if(!invoke()) return false;
     // observation (not a violation of C01): the result vector was re-bound to the memory of y
-    if(ac.mode == 1 && nout > 0 && (const void*)rawptr(r) == (const void*)rawptr(y)) c.count("observation:" + kind.substr(0, kind.find_first_of("<[ ")) + " apply early-out aliases r to y");
+    const bool rebound = (ac.mode == 1 && nout > 0 && (const void*)rawptr(r) == (const void*)rawptr(y));
+    if(rebound) c.count("observation:" + kind.substr(0, kind.find_first_of("<[ ")) + " apply early-out aliases r to y");
     // ---- compare
     const auto rf = vflat(r);
     if(!c.check(rf.size() == size_t(nout), key + " result-length", "result vector changed its length")) return false;
-    const bool exact = (ac.alphabet == 0) && (ac.mode == 0 || scalars[ac.alpha].dyadic);
+    const bool exact = alphabet_exact(ac.alphabet) && (ac.mode == 0 || scalars[ac.alpha].dyadic);
     const LD eps = LD(std::numeric_limits<DT>::epsilon());
     for(int i = 0; i < nout && ok; ++i)
     {
@@ -313,7 +419,8 @@ namespace c01
         if(!(got == LD(DT(expect))))
         {
           ok = false;
-          c.fail(key, "component " + std::to_string(i) + ": got " + std::to_string((double)got) + " expected exactly " + std::to_string((double)expect));
+          std::ostringstream o; o.precision(17); o << "component " << i << ": got " << (double)got << " expected exactly " << (double)expect;
+          c.fail(key, o.str());
         }
       }
       else
@@ -332,6 +439,19 @@ namespace c01
     if(!same_bits(xs, vflat(x))) { ok = false; c.fail(key + " x-modified", "operand x was modified"); }
     if(ac.mode == 1 && !same_bits(ys, vflat(y))) { ok = false; c.fail(key + " y-modified", "operand y was modified"); }
     if(mhash() != mh) { ok = false; c.fail(key + " matrix-modified", "matrix arrays were modified"); }
+    // ---- re-invocation on the already filled result (lesson 2): must reproduce the first result bit by bit
+    if(ok && !rebound)
+    {
+      if(ac.mode == 2) vfill(r, yf);
+      if(invoke())
+      {
+        c.count("re_invocations");
+        if(!same_bits(rf, vflat(r))) { ok = false; c.fail(key + " re-invocation", "second call on the same objects (result vector holding the first result) gives a different result"); }
+        if(mhash() != mh || !same_bits(xs, vflat(x))) { ok = false; c.fail(key + " re-invocation operand-modified", "second call modified an operand"); }
+      }
+    }
+    if(view && !(rv.guards_ok(nout) && yv.guards_ok(nout) && xv.guards_ok(nin)))
+    { ok = false; c.fail(key + " view-guards", "entries outside of the sub-range views were written"); }
     return ok;
   }
 } // namespace c01
